@@ -93,36 +93,12 @@ Proof. apply rx_eq_glob_b. Qed.
 (* ------------------------------------------------------------------ *)
 (* 3. the decision                                                     *)
 
-(* the class the code compiles for "?" and the stated one agree on every character
-   except "%" and "." *)
-Definition plain_char (x : N) : bool := negb ((x =? c_pct) || (x =? c_dot)).
-Definition plain (p : str) : bool := forallb plain_char p.
-
-Lemma glob_class_ext one one' any p s :
-  (forall x, In x s -> one x = one' x) -> glob one any p s -> glob one' any p s.
-Proof.
-  intros Hext H. induction H as [|c p s H IH|x p s Hx H IH|r p s Hr H IH].
-  - constructor.
-  - constructor. apply IH. intros x Hin. apply Hext. right; exact Hin.
-  - constructor.
-    + rewrite <- Hext; [exact Hx | left; reflexivity].
-    + apply IH. intros y Hin. apply Hext. right; exact Hin.
-  - constructor; [exact Hr|]. apply IH. intros y Hin. apply Hext. apply in_or_app. right; exact Hin.
-Qed.
-
+(* the specificity test of the code is the stated one *)
 Lemma bool_eq_iff (a b : bool) : (a = true <-> b = true) -> a = b.
 Proof. destruct a, b; intros [H1 H2]; try reflexivity; [symmetry; apply H1 | apply H2]; reflexivity. Qed.
 
-Lemma more_specific_re_spec less a :
-  plain a = true -> more_specific_re less a = at_least_as_specific_b a less.
-Proof.
-  intros Hp. unfold more_specific_re, at_least_as_specific_b. rewrite rx_eq_glob_b.
-  assert (E : forall x, In x a -> not_wild x = not_run_wildcard x).
-  { intros x Hin. unfold plain in Hp. rewrite forallb_forall in Hp. specialize (Hp x Hin).
-    unfold plain_char, not_wild, not_run_wildcard in *.
-    destruct (x =? c_pct) eqn:E1, (x =? c_dot) eqn:E2, (x =? c_star) eqn:E3; cbn in *; try discriminate; reflexivity. }
-  apply bool_eq_iff. rewrite !glob_b_iff_glob. split; apply glob_class_ext; intros x Hin; [|symmetry]; apply E; exact Hin.
-Qed.
+Lemma more_specific_re_spec less a : more_specific_re less a = at_least_as_specific_b a less.
+Proof. unfold more_specific_re, at_least_as_specific_b. rewrite rx_eq_glob_b. reflexivity. Qed.
 
 Lemma mem_In s l : mem s l = true <-> In s l.
 Proof.
@@ -194,18 +170,14 @@ Qed.
 Lemma filter_ext_in' {A} (f g : A -> bool) l : (forall a, In a l -> f a = g a) -> filter f l = filter g l.
 Proof. apply filter_ext_in. Qed.
 
-(* The decision, for pattern sets whose matching patterns are distinct within a
-   polarity and written without "%" and "." (where the compiled "?" class and the
-   stated one coincide): IsTableNameIgnored is the declarative rule.
-   FULL statement (false of the code as it is, see decision_most_specific_refuted):
-     forall ps n, NoDup (matching ps n true) -> NoDup (matching ps n false) ->
-       d_code (is_ignored ps n) = spec_decision ps n. *)
-Theorem decision_is_spec_partial ps n :
+(* The decision: for every pattern set whose matching patterns are distinct within a polarity
+   (dolt_ignore's primary key) and every table name, IsTableNameIgnored is the declarative
+   rule "most specific wins, same patterns conflict". *)
+Theorem decision_is_spec ps n :
   NoDup (matching ps n true) -> NoDup (matching ps n false) ->
-  (forall p, In p (matching ps n true ++ matching ps n false) -> plain p = true) ->
   d_code (is_ignored ps n) = spec_decision ps n.
 Proof.
-  intros NT NF Hplain. unfold is_ignored, spec_decision.
+  intros NT NF. unfold is_ignored, spec_decision.
   destruct (is_rebase n); [reflexivity|].
   rewrite <- matching_true, <- matching_false.
   set (T := matching ps n true) in *. set (F := matching ps n false) in *.
@@ -218,28 +190,38 @@ Proof.
   destruct (first_eq_pair T F) as [[t f]|] eqn:EP.
   - rewrite (first_eq_pair_some _ _ _ _ EP). reflexivity.
   - apply first_eq_pair_none in EP. rewrite EP.
-    assert (HT : forall p, In p T -> plain p = true) by (intros p Hp; apply Hplain; apply in_or_app; left; exact Hp).
-    assert (HF : forall p, In p F -> plain p = true) by (intros p Hp; apply Hplain; apply in_or_app; right; exact Hp).
     rewrite (filter_ext_in' _ (fun t => existsb (fun f => at_least_as_specific_b f t) F) T).
-    2:{ intros t Ht. apply existsb_ext_in. intros f Hf. apply more_specific_re_spec. apply HF; exact Hf. }
+    2:{ intros t Ht. apply existsb_ext_in. intros f Hf. apply more_specific_re_spec. }
     rewrite (filter_ext_in' _ (fun f => existsb (fun t => at_least_as_specific_b t f) T) F).
-    2:{ intros f Hf. apply existsb_ext_in. intros t Ht. apply more_specific_re_spec. apply HT; exact Ht. }
+    2:{ intros f Hf. apply existsb_ext_in. intros t Ht. apply more_specific_re_spec. }
     rewrite !dedup_NoDup by (apply NoDup_filter; assumption).
     rewrite !filter_length_all.
     destruct (forallb _ T); [reflexivity|]. destruct (forallb _ F); reflexivity.
 Qed.
 
-(* Refuted: with the class that getMoreSpecificPatterns really compiles, "?" is
-   taken to cover "%": for {"_%": don't ignore, "_?": ignore} and the table "_b"
-   the most specific matching pattern ("_?") says ignore, the code answers
-   DontIgnore.  Reproduced on the implementation (known finding). *)
-Theorem decision_most_specific_refuted :
-  exists ps n, NoDup (matching ps n true) /\ NoDup (matching ps n false) /\
-               spec_decision ps n = 0 /\ d_code (is_ignored ps n) = 1.
+Lemma NoDup_matching ps n ig : NoDup (map fst ps) -> NoDup (matching ps n ig).
 Proof.
-  exists [([95; 37], false); ([95; 63], true)], [95; 98]. vm_compute.
-  repeat split; repeat constructor; cbn; intuition discriminate.
+  unfold matching. induction ps as [|[p b] ps IH]; intros H; [constructor|].
+  cbn [map fst] in H. inversion H as [|? ? Hp Hd]; subst. cbn [filter].
+  destruct (Bool.eqb (snd (p, b)) ig && match_table_pattern (fst (p, b)) n); [|apply IH; exact Hd].
+  cbn [map fst]. constructor; [|apply IH; exact Hd].
+  intros Hin. apply Hp. apply in_map_iff in Hin as [[q c] [E Hq]]. apply filter_In in Hq as [Hq _].
+  cbn [fst] in E. subst q. apply in_map_iff. exists (p, c). split; [reflexivity | exact Hq].
 Qed.
+
+(* at the SQL surface the pattern is the primary key of dolt_ignore *)
+Corollary decision_is_spec_pk ps n : NoDup (map fst ps) -> d_code (is_ignored ps n) = spec_decision ps n.
+Proof. intros H. apply decision_is_spec; apply NoDup_matching; exact H. Qed.
+
+(* Regression (finding repaired in d28426b): the "?" class used to be rewritten to [^.*.*], so
+   that "?" covered "%": {"_%": don't ignore, "_?": ignore} answered DontIgnore for "_b", and
+   {"%a": ignore, "??": don't ignore} answered Ignore for "ba". *)
+Example decision_qmark_regression :
+  d_code (is_ignored [([95; 37], false); ([95; 63], true)] [95; 98]) = 0
+  /\ spec_decision [([95; 37], false); ([95; 63], true)] [95; 98] = 0
+  /\ d_code (is_ignored [([37; 97], true); ([63; 63], false)] [98; 97]) = 2
+  /\ spec_decision [([37; 97], true); ([63; 63], false)] [98; 97] = 2.
+Proof. vm_compute. repeat split; reflexivity. Qed.
 
 (* with duplicates in one polarity the map-size comparison misfires (API level only:
    dolt_ignore's primary key is the pattern) *)
@@ -342,7 +324,7 @@ Proof.
 Qed.
 
 (* For every pattern set on which the decision procedure agrees with the rule (all of
-   them up to the "?"-class defect, see decision_is_spec_partial) and every working
+   them with distinct patterns, see decision_is_spec / clean_is_spec_pk) and every working
    set with distinct table names: dolt_clean / -x / --dry-run do exactly what the
    property states, or report the conflict and change nothing. *)
 Theorem clean_is_spec ps h s w x dry :
@@ -386,6 +368,12 @@ Proof.
           apply mem_In. apply filter_In. split; [apply filter_In; split; assumption | exact E1]. }
       rewrite E. apply same_root_refl. apply names_filter_NoDup. exact Hw.
 Qed.
+
+(* ... hence for every dolt_ignore table (patterns are its primary key) *)
+Corollary clean_is_spec_pk ps h s w x dry :
+  NoDup (map fst ps) -> NoDup (names h) -> NoDup (names s) -> NoDup (names w) ->
+  clean_ok ps x dry (h, s, w) (fst (clean ps (negb x) dry (h, s, w))) (snd (clean ps (negb x) dry (h, s, w))) = true.
+Proof. intros Hp Hh Hs Hw. apply clean_is_spec; try assumption. intros n _. apply decision_is_spec_pk. exact Hp. Qed.
 
 (* nothing tracked is ever removed by clean *)
 Corollary clean_keeps_tracked ps respect dry h s w t :
